@@ -122,7 +122,7 @@ def strip_comments(text):
 
 
 # theorem files that state "function regenerated from the source = hand-written model" and the properties resting on them
-SOURCE_TIES = {'C01': ['C01g', 'C03g'], 'C03': ['C01g', 'C12g', 'C03g', 'C04g'], 'C04': ['C04r', 'C12g', 'C11g', 'C04g'], 'C11': ['C04r', 'C11g', 'C11h'], 'C07': ['C01g', 'C12g', 'C11g', 'C03g', 'C04g', 'C04r'], 'C14': ['C01g', 'C03g', 'C04g', 'C04r', 'C14h', 'C11h'],
+SOURCE_TIES = {'C01': ['C01g', 'C03g'], 'C03': ['C01g', 'C12g', 'C03g', 'C04g'], 'C04': ['C04r', 'C12g', 'C11g', 'C04g', 'C11h'], 'C11': ['C04r', 'C11g', 'C11h'], 'C07': ['C01g', 'C12g', 'C11g', 'C03g', 'C04g', 'C04r', 'C11h'], 'C14': ['C01g', 'C03g', 'C04g', 'C04r', 'C14h', 'C11h'],
                'C08': ['C08g'], 'C12': ['C12g', 'C12h', 'C12i'], 'C10': ['C10g', 'C10h'], 'C02': ['C02g'], 'C16': ['C16g'], 'C13': ['C13g'], 'C17': ['C17g'], 'C19': ['C19g'], 'C15': ['C15g']}
 
 
